@@ -4,7 +4,7 @@
 //verif:assume appends happen at solver-chosen non-decreasing seconds (steps of 0, 1 or 5 s); listing universe: entries stamped from-token-time minus {1201, 1200, 1199, 600, 0} s and plus 1 s, each present or absent, max 1..7; entries are read from the store in one read with EOF, in one read followed by a separate EOF, or byte by byte
 //verif:cover VerifC19Tokens same-second later-second
 //verif:cover VerifC19ListTokens look-back-boundary truncated-by-max
-//verif:cover VerifC19ListEntries multi-read get-fails
+//verif:cover VerifC19ListEntries multi-read get-fails empty-payload
 //verif:cover VerifC19AppendThenList appended
 package wal
 
@@ -102,7 +102,12 @@ func vWalUniverse(wl *vStore) (from string, want []string) {
 	for i, d := range offs {
 		if vChoose("has", 2) == 1 {
 			tok := vTokenAt(fromSec+d, fills[i])
-			b, err := model.MarshalWAL(&model.Entry{Token: tok, Payload: "p" + string(rune('0'+i))})
+			payload := "p" + string(rune('0'+i))
+			if i == 3 && vChoose("emptyPayload", 2) == 1 {
+				payload = "" // a legal entry without payload
+				vCover("empty-payload")
+			}
+			b, err := model.MarshalWAL(&model.Entry{Token: tok, Payload: payload})
 			vAssert(err == nil, "marshal")
 			wl.putRaw(tok, b)
 			if d >= -1200 {
@@ -187,7 +192,7 @@ func VerifC19ListEntries() {
 			se, uerr := model.UnmarshalWAL(wl.data[want[i]])
 			vAssert(uerr == nil, "stored-entry-readable")
 			stored = *se
-			vAssert(e.Payload == stored.Payload && strings.HasPrefix(e.Payload, "p"), "payload-unchanged")
+			vAssert(e.Payload == stored.Payload && (e.Payload == "" || strings.HasPrefix(e.Payload, "p")), "payload-unchanged")
 		}
 	}
 }
